@@ -130,6 +130,12 @@ def analyse_mask(obs: Obs, prog):
             expected="either Mask.build combines Diff flags (primal and_, tangent join) or edit never reaches that arm", where=w)
     okb = is_t(q[3], "ctor") and q[3][1] == "Update" and mentions(q[3], ("attr", mk_proj(E, 3), "constraint"))
     obs.add({"C06", "C05", "C14"}, "BWD-OLDVALUES", "Mask.edit/bwd", okb, derived=q[3], expected="Update(<inner backward constraint> ...)", where=w)
+    # the discard holds the previous values of the addresses that were VISIBLE before the edit: the inner backward constraint gated by the OLD flag
+    # (gating by the new flag loses the overwritten values on True -> False, so the backward edit exposes the constrained value instead of the original one)
+    inner_bwd = ("attr", mk_proj(E, 3), "constraint")
+    okg = is_t(q[3], "ctor") and q[3][1] == "Update" and len(q[3][2]) == 1 and q[3][2][0] in (("call", ("attr", inner_bwd, "mask"), (pre,), ()), ("call", ("attr", inner_bwd, "filter"), (pre,), ()))
+    obs.add({"C06", "C05", "C14"}, "BWD-OLDVALUES", "Mask.edit/bwd-gate", okg, construct="flag gating the backward constraint", derived=q[3],
+            expected="Update(<inner backward constraint>.mask(trace.check)) - the flag the trace had BEFORE the edit", where=w)
     obs.add({"C06"}, "BWD-CLOSED", "Mask.edit", is_t(q[3], "ctor") and q[3][1] == "Update", derived=q[3][1] if is_t(q[3], "ctor") else "?", expected="Update", where=w)
     asr = [t for c, t in r.asserts]
     obs.add({"C06"}, "REQ-ACCEPT", "Mask.edit", any(is_t(t, "isinst") and t[1] == P("edit_request") and t[2] == "Update" for t in asr), derived=[show(t) for t in asr], expected="assert isinstance(edit_request, Update)", where=w)
